@@ -493,6 +493,12 @@ M("C01", "wfn-centres-zero-based", F + "wfn.py", r"cntrs = \[shell\.icenter \+ 1
 M("C01", "wfn-type-count-from-zero", F + "wfn.py", r"    angmom_prim = \{\}\n    count = 1\n", "    angmom_prim = {}\n    count = 0\n", "C01-R18")
 T("C01", "wfn-type-numbers-from-cumulative-sizes", F + "wfn.py", r"        count \+= len\(obasis\.conventions\[angmom, \"c\"\]\)\n", "        count = count + (angmom + 1) * (angmom + 2) // 2\n")
 
+M("C02", "fchk-esp-and-npa-labels-swapped", F + "fchk.py", r"_dump_real_arrays\(\"ESP Charges\", data\.atcharges\[\"esp\"\], f\)", "_dump_real_arrays(\"ESP Charges\", data.atcharges[\"npa\"], f)", "C02-R29")
+M("C02", "fchk-reader-hirshfeld-from-type-7", F + "fchk.py", r"atcharges\[\"hirshfeld\"\] = fchk\[\"Type 6 Charges\"\]", "atcharges[\"hirshfeld\"] = fchk[\"Type 7 Charges\"]", "C02-R29")
+M("C02", "fchk-nuclear-charges-from-atnums", F + "fchk.py", r"_dump_real_arrays\(\"Nuclear charges\", data\.atcorenums, f\)", "_dump_real_arrays(\"Nuclear charges\", data.atnums.astype(float), f)", "C02-R29")
+M("C02", "fchk-spin-density-under-total-label", F + "fchk.py", r"            title = \"Spin SCF Density\"", "            title = \"Total SCF Density\"", "C02-R29")
+T("C02", "fchk-charges-written-from-an-ordered-table", F + "fchk.py", r"    if \"mulliken\" in data\.atcharges:\n        _dump_real_arrays\(\"Mulliken Charges\", data\.atcharges\[\"mulliken\"\], f\)\n    if \"esp\" in data\.atcharges:\n        _dump_real_arrays\(\"ESP Charges\", data\.atcharges\[\"esp\"\], f\)\n", "    for key_, label_ in ((\"mulliken\", \"Mulliken Charges\"), (\"esp\", \"ESP Charges\")):\n        if key_ in data.atcharges:\n            _dump_real_arrays(label_, data.atcharges[key_], f)\n")
+
 
 def _run_one(args):
     spec, repo = args
